@@ -237,7 +237,18 @@ def blockVerdict (half : Bool) (W H : Nat) (px : Array Pix8) (bw bh : Nat) (col 
               if ¬ (col ≤ c.x ∧ (c.x : Int) < col + width ∧ row ≤ c.y ∧ (c.y : Int) < row + height) then
                 some s!"cell {c.x},{c.y} outside the window"
               else if c.x - col ≥ cw ∨ c.y - row ≥ chh then some s!"cell {c.x},{c.y} outside the image"
-              else if scaled then go rest (n + 1)
+              else if scaled then
+                -- rescaled image: for an all-opaque source the half-block cell must show colours of source pixels
+                -- (`Props.C20Ext.resized_opaque_half` under the scaler hypothesis `ScalerPicks`, checked here)
+                let allOpaque := px.all fun p => p.a == 255
+                let isSrc (v : Nat) : Bool := px.any fun p => v == 2 ^ 25 + p.r * 65536 + p.g * 256 + p.b
+                if half && allOpaque && W * H > 0 then
+                  if c.glyph ≠ "e29680" then some s!"cell {c.x},{c.y}: rescaled opaque image, glyph is not the upper half block"
+                  else if !isSrc c.fg then some s!"cell {c.x},{c.y}: foreground {c.fg} is not the colour of any source pixel"
+                  else if !(isSrc c.bg || (c.bg == 0 && c.y - row + 1 == chh)) then
+                    some s!"cell {c.x},{c.y}: background {c.bg} is not the colour of any source pixel"
+                  else go rest (n + 1)
+                else go rest (n + 1)
               else
                 let t := pixAt W H px (c.x - col) (2 * (c.y - row))
                 let b := pixAt W H px (c.x - col) (2 * (c.y - row) + 1)
